@@ -113,7 +113,7 @@ def generate(rng, prop, tier):
              "tick", "tick", "bad_name"]
     if cls == "htdigest":
         kinds += ["delete_realm", "realms"]
-    kinds += ["external_edit"] * 3
+    kinds += ["external_edit"] * 3 + ["save_as", "load_from", "rebind"]
     if faults_on:
         kinds += ["io_fault"] * 3
     for _ in range(nops):
@@ -135,7 +135,7 @@ def generate(rng, prop, tier):
             ops.append({"op": k, "o": o, "realm": rng.choice(REALMS)})
         elif k == "check_password":
             ops.append({"op": k, "o": o, "user": u, "realm": realm, "pw": rng.choice(PWS), "right": rng.random() < 0.6, "bytes": as_bytes})
-        elif k in ("users", "realms", "load", "load_if_changed", "save"):
+        elif k in ("users", "realms", "load", "load_if_changed", "save", "save_as", "load_from", "rebind"):
             ops.append({"op": k, "o": o, "realm": realm})
         elif k == "load_string":
             ops.append({"op": k, "o": o, "lines": _gen_lines(rng, cls, schemes, rng.choice([0, 2, 4, 7]), allow_bad=rng.random() < 0.15),
@@ -187,6 +187,7 @@ def simplify_cfg(cfg):
 # execution
 # ---------------------------------------------------------------------------------------------
 PATH = "/sim/etc/passwords"
+PATH2 = "/sim/etc/passwords.copy"
 
 
 class _W:
@@ -322,7 +323,7 @@ class _W:
                 model = DocModel(self.nf)
         else:
             ht = C(**kw)
-        return {"ht": ht, "model": model, "bound": bound, "autosave": bound and autosave}
+        return {"ht": ht, "model": model, "bound": bound, "autosave": bound and autosave, "path": PATH if bound else None}
 
     def _make_objects(self):
         cfg = self.cfg
@@ -386,14 +387,14 @@ class _W:
 
     def resync_after_save(self, o):
         """after a successful save through o the file is o's export and o has read its mtime"""
-        data = self.fs.get(PATH)
+        data = self.fs.get(o["path"])
         try:
             s = o["ht"].to_string()
         except Exception as e:
             self.ctx.fail("C16", "export-raises", f"after save: {type(e).__name__}: {e}", exc=type(e).__name__)
         self.ctx.check(data == s, "C16", "saved-file-differs-from-export", lambda: f"file {data!r} export {s!r}")
         self.check_text(data, o["model"], "after-save", "file")
-        o["model"].mtime_read = self.fs.getmtime(PATH)
+        o["model"].mtime_read = self.fs.getmtime(o["path"])
 
     def mutate_done(self, o, where):
         """bookkeeping after a state-changing call that returned normally"""
@@ -647,9 +648,9 @@ class _W:
             r = self.call(getattr(ht, k))
             ctx.check(r[0] == "exc" and r[1] == "RuntimeError", "C16", "unbound-load", f"{k}() on an unbound object -> {r[:2]}", op=k)
             return
-        data = self.fs.get(PATH)
+        data = self.fs.get(o["path"])
         armed = self.fs.armed
-        mt = self.fs.mtimes.get(PATH)
+        mt = self.fs.mtimes.get(o["path"])
         r = self.call(getattr(ht, k))
         fired = self.fs.reset_fired()
         got = "ok" if r[0] == "ok" else r[1]
@@ -716,6 +717,65 @@ class _W:
             ctx.fail("C16", "operation-raises", f"save() raised {r[1]}: {r[2]}", op="save", exc=r[1])
         self.resync_after_save(o)
         ctx.nontrivial = True
+
+    def op_save_as(self, op, o):
+        """save(path): a copy goes to another file; the object's own binding and mtime are unaffected"""
+        ctx = self.ctx
+        ht, model = o["ht"], o["model"]
+        r = self.call(ht.save, PATH2)
+        fired = self.fs.reset_fired()
+        if fired:
+            ctx.check(r[0] == "exc" and isinstance(r[2], OSError), "C16", "io-error-swallowed", f"save(path) under {fired} -> {r[:2]}", op="save_as")
+            self.verify_state(o, "save_as(io fault)")
+            return
+        if r[0] == "exc":
+            ctx.fail("C16", "operation-raises", f"save({PATH2!r}) raised {r[1]}: {r[2]}", op="save_as", exc=r[1])
+        data = self.fs.get(PATH2)
+        ctx.check(data == ht.to_string(), "C16", "saved-file-differs-from-export", lambda: f"copy {data!r} export {ht.to_string()!r}")
+        self.check_text(data, model, "after-save-as", "file")
+        self.verify_state(o, "save_as")
+        ctx.nontrivial = True
+
+    def op_load_from(self, op, o):
+        """load(path): state replaced by another file's content (atomically), remembered mtime forgotten"""
+        ctx = self.ctx
+        ht, model = o["ht"], o["model"]
+        data = self.fs.get(PATH2)
+        r = self.call(ht.load, PATH2)
+        fired = self.fs.reset_fired()
+        got = "ok" if r[0] == "ok" else r[1]
+        if fired:
+            ctx.check(r[0] == "exc" and isinstance(r[2], OSError), "C16", "io-error-swallowed", f"load(path) under {fired} -> {r[:2]}", op="load_from")
+            if "read_error" in fired:
+                model.mtime_read = None
+            self.verify_state(o, "load_from(io fault)")
+            return
+        if data is None:
+            ctx.check(got == "FileNotFoundError", "C16", "load-outcome", f"load(missing file) -> {got}", op="load_from")
+            self.verify_state(o, "load_from")
+            return
+        try:
+            m2 = DocModel(self.nf)
+            m2.load(data)
+            want = "ok"
+        except Malformed:
+            want = "ValueError"
+        ctx.check(got == want, "C16", "load-outcome", f"load({PATH2!r}) of {data!r} -> {got}, expected {want}", op="load_from")
+        model.mtime_read = None  # an explicit path is not the bound file: the next load_if_changed must reload
+        if want == "ok":
+            model.recs, model.untouched = m2.recs, m2.untouched
+            ctx.nontrivial = True
+        self.verify_state(o, "load_from")
+
+    def op_rebind(self, op, o):
+        """assigning .path binds the object to another file and forgets the remembered mtime"""
+        if not o["bound"]:
+            return
+        new = PATH2 if o["path"] == PATH else PATH
+        o["ht"].path = new
+        o["path"] = new
+        o["model"].mtime_read = None
+        self.verify_state(o, "rebind")
 
     def op_bad_name(self, op, o):
         ctx = self.ctx
@@ -820,6 +880,12 @@ def execute(program, ctx):
             w.op_load(op, o)
         elif k == "save":
             w.op_save(op, o)
+        elif k == "save_as":
+            w.op_save_as(op, o)
+        elif k == "load_from":
+            w.op_load_from(op, o)
+        elif k == "rebind":
+            w.op_rebind(op, o)
         elif k == "tick":
             w.fs.tick(op["dt"])
             ctx.sim_time += abs(op["dt"])
